@@ -38,6 +38,8 @@ pub fn make_sut(scn: &Value) -> Arc<dyn Sut> {
         other => {
             if let Some(s) = crate::cont_suts::make(kind, scn) {
                 s
+            } else if let Some(s) = crate::avg_suts::make(kind, scn) {
+                s
             } else if let Some(s) = crate::handle_suts::make(kind, scn) {
                 s
             } else if let Some(s) = crate::chan_suts::make(kind, scn) {
